@@ -684,6 +684,10 @@ SPECS["C03"]["parts"].append(dict(name="redis-hung", pkg="app/router", run="Test
                                   files={"harness/router/zz_verif_redis_test.go": "app/router/zz_verif_redis_test.go", "harness/router/zz_verif_c03redis_test.go": "app/router/zz_verif_c03redis_test.go"},
                                   budget={"quick": 120, "thorough": 120}))
 
+SPECS["C03"]["parts"].append(dict(name="many-in-flight", pkg="app/router", run="TestVerifC03ManyInFlight", go="go1.26", env=E3ENV, engines=E3ENGINES, shards=1, gomaxprocs=8,
+                                  files=dict(ROUTER_COMMON, **{"harness/router/zz_verif_c03many_test.go": "app/router/zz_verif_c03many_test.go"}),
+                                  params={"quick": {"INFLIGHT": 4600}, "thorough": {"INFLIGHT": 12000}}, budget={"quick": 120, "thorough": 120}))
+
 # --------------------------------------------------------------------------------------------
 # Properties not (yet) claimed. Kept current: every property without a SPECS entry must be here.
 NOT_APPLICABLE = {
